@@ -96,8 +96,9 @@ def install(merge=True, global_rng=None, modules=None):
             tree = BoolMerge().visit(tree); ast.fix_missing_locations(tree)
         ns = mod.__dict__
         ns['__symx_and__'] = symx_and; ns['__symx_or__'] = symx_or; ns['__symx_not__'] = symx_not
-        old = {k: v for k, v in ns.items() if isinstance(v, types.FunctionType) and v.__module__ == name}
+        oldcls = {k: v for k, v in ns.items() if isinstance(v, type) and getattr(v, '__module__', None) == name}
         exec(compile(tree, mod.__file__, 'exec'), ns)
+        ns.update(oldcls)            # keep class identity (exception classes are imported by value elsewhere)
         ns['np'] = proxy
         mods[name] = mod
         INSTALLED[name] = hashlib.sha256(src.encode()).hexdigest()
